@@ -135,6 +135,7 @@ def check_rddm(out: Outcome, p: dict, xs: list, runners: list) -> None:
     if r.det is None or d.det is None:
         return
     event_seen = False
+    consec = 0          # consecutive DDM warnings so far (RDDM's warning counter before its first event)
     prev_n = 0
     pending_event = False
     nontrivial = False
@@ -169,12 +170,16 @@ def check_rddm(out: Outcome, p: dict, xs: list, runners: list) -> None:
             if r.det.rddm_drift:
                 event_seen = True
                 warning_limit = got[0] and not want[0]
+                if warning_limit and want[1] and consec < fp["max_num_instances_warning"]:
+                    out.violation(f"RDDM: warning-limit event at step {t} after only {consec} consecutive warnings (limit {fp['max_num_instances_warning']})", rep)
+                    break
                 if got != want and not (warning_limit and want[1]):
                     out.violation(f"RDDM: verdict {got} differs from DDM's {want} at its first event (step {t})", rep)
                     break
             elif got != want:
                 out.violation(f"RDDM: verdict {got} differs from DDM's {want} before any RDDM event (step {t})", rep)
                 break
+            consec = consec + 1 if want[1] else 0
     runners.extend([r, d])
     out.case({"class": "RDDM", "params": p, "n": len(xs), "stream": "".join(str(int(v)) for v in xs[:64])}, nontrivial=nontrivial)
 
